@@ -449,3 +449,176 @@ Proof.
         -- injection Hb as <- <-. rewrite map_app. apply in_or_app. left. exact U7.
         -- exact (SPm k b Hb).
 Qed.
+
+Lemma f_any_inside bs (o a : Z) s :
+  f_nf bs (Some (o, a), s) = false -> f_ext bs (Some (o, a), s) = false ->
+  f_off 9 bs (Some (o, a), s) = false -> f_off 11 bs (Some (o, a), s) = false ->
+  f_any bs (Some (o, a), s) = false.
+Proof. unfold f_any, f_undet. cbn [fst snd inside negb andb]. intros -> -> -> ->. reflexivity. Qed.
+
+Lemma typed_in p s : typed p = true -> In s p -> typed_stmt s = true.
+Proof. unfold typed. rewrite forallb_forall. auto. Qed.
+
+Lemma f_any_true_violated p c s : In (c, s) (placed p) -> f_any (bindings p) (c, s) = true ->
+  v_undet_stmt p = true \/ v_not_found p = true \/ v_external p = true \/ v_offset 9 p = true \/ v_offset 11 p = true.
+Proof.
+  intros Hin H. unfold f_any in H.
+  rewrite v_undet_stmt_f, v_not_found_f, v_external_f, !v_offset_f.
+  repeat (apply orb_prop in H; destruct H as [H|H]);
+    [left | right; left | right; right; left | right; right; right; left | right; right; right; right];
+    apply existsb_exists; exists (c, s); split; assumption.
+Qed.
+
+Lemma p2_step_inv p L pre s suf st :
+  p = pre ++ s :: suf -> typed p = true -> P1ok p L ->
+  I2 (bindings p) pre st ->
+  match p2_step L st s with
+  | AOk st' => I2 (bindings p) (pre ++ [s]) st'
+  | AErr k sp => violated p k = true
+  | APanic => False
+  end.
+Proof.
+  intros EP T [_ R _ _ VU VN VIO] HI. set (bs := bindings p) in *.
+  set (c := final None pre).
+  assert (K1 : In (c, s) (placed p)) by (rewrite EP; apply placed_in).
+  assert (Ts : typed_stmt s = true) by (apply (typed_in p); [exact T | rewrite EP; apply in_or_app; right; left; reflexivity]).
+  pose proof (existsb_false_in _ _ _ VN K1) as KN. cbn [fst snd] in KN.
+  pose proof (existsb_false_in _ _ _ VU K1) as KU. cbn [fst snd] in KU.
+  pose proof (existsb_false_in _ _ _ VIO K1) as KIO. cbn [fst snd] in KIO.
+  pose proof (i2_cur _ _ _ HI) as CU. unfold cur2_rel in CU. fold c in CU.
+  pose proof (size_bounds s Ts) as SB.
+  unfold p2_step.
+  destruct (s_nucleus s) as [i|d] eqn:EN.
+  - (* instruction *)
+    assert (NO : is_orig s = false) by (unfold is_orig; rewrite EN; reflexivity).
+    assert (NE : is_end s = false) by (unfold is_end; rewrite EN; reflexivity).
+    assert (SZ : size s = 1) by (unfold size; rewrite EN; reflexivity).
+    destruct (p2_cur st) as [[lc blk]|] eqn:ECU; destruct c as [[o a]|] eqn:EC; try contradiction.
+    + destruct CU as [U1 [U2 [U3 [U4 [U5 [U6 U7]]]]]]. subst lc. pose proof (len_nonneg (ob_words blk)) as LNN.
+      rewrite SZ in KIO. unfold asm.IO_START in *. 
+      assert (A1 : a + 1 <= 65024) by (destruct (65024 <? a + 1) eqn:X; [discriminate KIO | lia]).
+      assert (W : wrap16 (a + 1) = a + 1) by (unfold wrap16; rewrite Z.mod_small; lia).
+      rewrite W. pose proof (into_sim_spec s i o a L bs EN R) as IS. cbn zeta in IS.
+      destruct (into_sim_instr i (a + 1) L) as [sim|k sp|]; cbn [abind].
+      * destruct IS as [-> [F1 [F2 [F3 F4]]]]. rewrite <- SZ.
+        apply (I2_append bs pre s st o a a blk); try assumption.
+        -- unfold snoc, stmt_words. rewrite EN. reflexivity.
+        -- apply len_stmt_words. exact Ts.
+        -- right. unfold asm.IO_START. lia.
+        -- apply f_any_inside; assumption.
+      * destruct IS as [_ [[-> F]|[[-> F]|[n [-> F]]]]]; cbn [violated].
+        -- rewrite v_not_found_f. apply existsb_exists. exists (Some (o, a), s). split; assumption.
+        -- rewrite v_external_f. apply existsb_exists. exists (Some (o, a), s). split; assumption.
+        -- rewrite v_offset_f. apply existsb_exists. exists (Some (o, a), s). split; assumption.
+      * exact IS.
+    + cbn [violated]. rewrite v_undet_stmt_f. apply existsb_exists. exists (None, s). split; [exact K1|].
+      unfold f_undet, needs_addr. cbn [fst snd]. rewrite EN. reflexivity.
+  - destruct d as [a0|o1|n|t| |l].
+    + (* .orig *)
+      assert (IO : is_orig s = true) by (unfold is_orig; rewrite EN; reflexivity).
+      rewrite IO, andb_true_r in KN.
+      destruct c as [[o a]|] eqn:EC; [discriminate KN|].
+      destruct (p2_cur st) as [[lc blk]|] eqn:ECU; [contradiction|].
+      apply I2_orig; try assumption. unfold typed_stmt in Ts. rewrite EN in Ts. lia.
+    + (* .fill *)
+      assert (NO : is_orig s = false) by (unfold is_orig; rewrite EN; reflexivity).
+      assert (NE : is_end s = false) by (unfold is_end; rewrite EN; reflexivity).
+      assert (NA : needs_addr s = true) by (unfold needs_addr; rewrite EN; reflexivity).
+      assert (SZ : size s = 1) by (unfold size; rewrite EN; reflexivity).
+      destruct (p2_cur st) as [[lc blk]|] eqn:ECU; destruct c as [[o a]|] eqn:EC; try contradiction.
+      * destruct CU as [U1 [U2 [U3 [U4 [U5 [U6 U7]]]]]]. subst lc. pose proof (len_nonneg (ob_words blk)) as LNN.
+        rewrite SZ in KIO. unfold asm.IO_START in *.
+        assert (A1 : a + 1 <= 65024) by (destruct (65024 <? a + 1) eqn:X; [discriminate KIO | lia]).
+        cbn [word_len].
+        pose proof (write_directive_spec s _ o a (ob_words blk) L bs EN NA R) as WS. cbn zeta in WS.
+        destruct (write_directive (ob_words blk) (DFill o1) L) as [w'|k sp|]; cbn [abind].
+        -- destruct WS as [-> F1]. destruct (dir_no_pcrel bs (Some (o, a)) s _ 9 EN) as [F2 F3].
+           destruct (dir_no_pcrel bs (Some (o, a)) s _ 11 EN) as [_ F4].
+           assert (W : wrap16 (a + 1) = a + 1) by (unfold wrap16; rewrite Z.mod_small; lia).
+           rewrite W, <- SZ. apply (I2_append bs pre s st o a a blk); try assumption.
+           ++ reflexivity.
+           ++ apply len_stmt_words. exact Ts.
+           ++ right. unfold asm.IO_START. lia.
+           ++ apply f_any_inside; assumption.
+        -- destruct WS as [-> [F _]]. cbn [violated]. rewrite v_not_found_f. apply existsb_exists. exists (Some (o, a), s). split; assumption.
+        -- exact WS.
+      * cbn [violated]. rewrite v_undet_stmt_f. apply existsb_exists. exists (None, s). split; [exact K1|].
+        unfold f_undet. cbn [fst snd inside negb andb]. exact NA.
+    + (* .blkw *)
+      assert (NO : is_orig s = false) by (unfold is_orig; rewrite EN; reflexivity).
+      assert (NE : is_end s = false) by (unfold is_end; rewrite EN; reflexivity).
+      assert (NA : needs_addr s = true) by (unfold needs_addr; rewrite EN; reflexivity).
+      assert (SZ : size s = n) by (unfold size; rewrite EN; reflexivity).
+      destruct (p2_cur st) as [[lc blk]|] eqn:ECU; destruct c as [[o a]|] eqn:EC; try contradiction.
+      * destruct CU as [U1 [U2 [U3 [U4 [U5 [U6 U7]]]]]]. subst lc. pose proof (len_nonneg (ob_words blk)) as LNN.
+        cbn [word_len].
+        pose proof (write_directive_spec s _ o a (ob_words blk) L bs EN NA R) as WS. cbn zeta in WS.
+        destruct (write_directive (ob_words blk) (DBlkw n) L) as [w'|k sp|]; cbn [abind].
+        -- destruct WS as [-> F1]. destruct (dir_no_pcrel bs (Some (o, a)) s _ 9 EN) as [F2 F3].
+           destruct (dir_no_pcrel bs (Some (o, a)) s _ 11 EN) as [_ F4].
+           unfold asm.IO_START in *.
+           assert (B : a + n = o \/ a + n <= 65024).
+           { rewrite SZ in KIO. destruct (0 <? n) eqn:X0; [|lia]. destruct (65024 <? a + n) eqn:X; [discriminate KIO | lia]. }
+           assert (W : wrap16 (a + n) = a + n) by (unfold wrap16; rewrite Z.mod_small; lia).
+           rewrite W, <- SZ. apply (I2_append bs pre s st o a a blk); try assumption.
+           ++ reflexivity.
+           ++ apply len_stmt_words. exact Ts.
+           ++ rewrite SZ. exact B.
+           ++ apply f_any_inside; assumption.
+        -- destruct WS as [-> [F _]]. cbn [violated]. rewrite v_not_found_f. apply existsb_exists. exists (Some (o, a), s). split; assumption.
+        -- exact WS.
+      * cbn [violated]. rewrite v_undet_stmt_f. apply existsb_exists. exists (None, s). split; [exact K1|].
+        unfold f_undet. cbn [fst snd inside negb andb]. exact NA.
+    + (* .stringz *)
+      assert (NO : is_orig s = false) by (unfold is_orig; rewrite EN; reflexivity).
+      assert (NE : is_end s = false) by (unfold is_end; rewrite EN; reflexivity).
+      assert (NA : needs_addr s = true) by (unfold needs_addr; rewrite EN; reflexivity).
+      pose proof (stmt_len_size s Ts) as SL. rewrite EN in SL. cbn [stmt_len] in SL.
+      destruct (p2_cur st) as [[lc blk]|] eqn:ECU; destruct c as [[o a]|] eqn:EC; try contradiction.
+      * destruct CU as [U1 [U2 [U3 [U4 [U5 [U6 U7]]]]]]. subst lc. pose proof (len_nonneg (ob_words blk)) as LNN.
+        rewrite SL.
+        pose proof (write_directive_spec s _ o a (ob_words blk) L bs EN NA R) as WS. cbn zeta in WS.
+        destruct (write_directive (ob_words blk) (DStringz t) L) as [w'|k sp|]; cbn [abind].
+        -- destruct WS as [-> F1]. destruct (dir_no_pcrel bs (Some (o, a)) s _ 9 EN) as [F2 F3].
+           destruct (dir_no_pcrel bs (Some (o, a)) s _ 11 EN) as [_ F4].
+           unfold asm.IO_START in *.
+           assert (B : a + size s = o \/ a + size s <= 65024).
+           { destruct (0 <? size s) eqn:X0; [|lia]. destruct (65024 <? a + size s) eqn:X; [discriminate KIO | lia]. }
+           assert (W : wrap16 (a + size s) = a + size s) by (unfold wrap16; rewrite Z.mod_small; lia).
+           rewrite W. apply (I2_append bs pre s st o a a blk); try assumption.
+           ++ reflexivity.
+           ++ apply len_stmt_words. exact Ts.
+           ++ apply f_any_inside; assumption.
+        -- destruct WS as [-> [F _]]. cbn [violated]. rewrite v_not_found_f. apply existsb_exists. exists (Some (o, a), s). split; assumption.
+        -- exact WS.
+      * cbn [violated]. rewrite v_undet_stmt_f. apply existsb_exists. exists (None, s). split; [exact K1|].
+        unfold f_undet. cbn [fst snd inside negb andb]. exact NA.
+    + (* .end *)
+      assert (IE : is_end s = true) by (unfold is_end; rewrite EN; reflexivity).
+      rewrite IE, andb_true_r in KU.
+      destruct c as [[o a]|] eqn:EC; [|discriminate KU].
+      destruct (p2_cur st) as [[lc blk]|] eqn:ECU; [|contradiction].
+      pose proof (I2_end bs pre s st lc blk o a HI ECU EC EN) as IE2.
+      destruct (ob_words blk) as [|w ws] eqn:EW; [exact IE2|].
+      fold (neighbours blk (p2_map st)).
+      destruct (find_overlap blk (neighbours blk (p2_map st))) as [[other|]|k sp|]; cbn [abind]; try exact IE2; try contradiction.
+      destruct IE2 as [OV _]. cbn [violated].
+      rewrite EP. replace (pre ++ s :: suf) with ((pre ++ [s]) ++ suf) by (rewrite <- app_assoc; reflexivity).
+      apply v_overlap_mono. exact OV.
+    + (* .external *)
+      assert (NO : is_orig s = false) by (unfold is_orig; rewrite EN; reflexivity).
+      assert (NE : is_end s = false) by (unfold is_end; rewrite EN; reflexivity).
+      assert (FA : forall c', f_any bs (c', s) = false) by (intros c'; apply f_any_nonaddr; unfold needs_addr; rewrite EN; reflexivity).
+      assert (SZ : size s = 0) by (unfold size; rewrite EN; reflexivity).
+      destruct (p2_cur st) as [[lc blk]|] eqn:ECU; destruct c as [[o a]|] eqn:EC; try contradiction.
+      * destruct CU as [U1 [U2 [U3 [U4 [U5 [U6 U7]]]]]]. subst lc. pose proof (len_nonneg (ob_words blk)) as LNN.
+        pose proof (I2_append bs pre s st o a a blk (ob_words blk) HI ECU EC NO NE) as IA.
+        assert (SW : stmt_words bs a s = []) by (unfold stmt_words; rewrite EN; reflexivity).
+        rewrite SW, app_nil_r, SZ, Z.add_0_r in IA.
+        assert (ST : st = mkP2 (p2_map st) (Some (a, mkOB (ob_start blk) (ob_words blk) (ob_span blk)))).
+        { destruct st as [m cu]. cbn [p2_cur p2_map] in *. rewrite ECU. destruct blk. reflexivity. }
+        rewrite ST. apply IA; try reflexivity.
+        -- destruct U6 as [U6|U6]; [left|right]; lia.
+        -- apply FA.
+      * apply I2_skip; try assumption. apply FA.
+Qed.
